@@ -27,6 +27,14 @@ CLAIMED = {
   "Contract proof over the real SSA of both error translators against one classification function written from the property (authentication, authorization, communication|timeout, precondition, no-rule, redirect, else internal, in that order): HTTP errorHandler.HandleError writes exactly one status, the code captured by the handler configured for that class; defaults are proved to be 401/403/502/400/404/500 and each With*Code option to install exactly the configured code; the per-class writer calls WriteHeader once with its code and sends body/Content-Type only when verbose. The Envoy interceptor returns a denied response whose HTTP status is the code captured for the same class (same order), never an OK response on the error path. A failed upstream exchange in proxy mode is recorded as a communication error. Function values stored in option structs are resolved by a whole-program closed-world scan; captured variables by an effectively-final check.",
   "Not covered: redirect/www-authenticate header emission (Location, WWW-Authenticate - see DESIGN.md, candidate finding), content negotiation (contenttype library) and the body format; the agreement of the two translators follows from both being proved against the same classification and the same default/override facts (stated in DESIGN.md, not a machine-checked lemma). Trusted: errorchain builder spec (functional abstraction), errors.Is axioms, net/http ResponseWriter spec.",
   "contract-based deductive verification (govc VC generation over go/ssa, z3/cvc5)", "DESIGN.md §6 C12"),
+ "C08": ("proof",
+  "Contract proof over the real SSA (strings as SMT strings, ReplaceAll/PathUnescape uninterpreted): with the setting off (and for the default rule, proved in C14/initWithDefaultRule) no pipeline step is called when the raw path contains an encoded slash in either hex case (cut-point assertion at the first pipeline call) and the request is answered with the precondition error; unescape returns the decoded value with %2F/%2f staying encoded unless the setting is on (against a spec function written from the property); path_params are compared with the decoded segment under every setting.",
+  "Not covered by contracts: the first sentence's lookup part (repository.FindRule looks literal segments up by the raw path as received: an encoded unreserved character in a literal segment selects a different rule - recorded as candidate, radix tree lookups are not under contract yet), the upstream path in Backend.CreateURL, extractURL. url.PathUnescape and strings.ReplaceAll are uninterpreted functions (equal arguments give equal results).",
+  "contract-based deductive verification (govc VC generation over go/ssa, z3/cvc5)", "DESIGN.md §6 C08"),
+ "C03": ("proof",
+  "Contract proof over the real SSA: scheme (only when set), method list (empty = any), host (decided by the typed matcher on the request host) and composite (conjunction in order, via a ghost log of member calls) matchers against their specifications; the host condition is one any-of matcher over all listed expressions; glob expressions are compiled once per matcher with the separator of their use; the exact matcher is equality; path_params see the decoded segment per encoded-slash setting (shared with C08); captured values are decoded by unescape.",
+  "Not covered: which keys/values the radix tree hands to the matcher (free-wildcard captures - candidate finding, tree lookups not under contract yet), createMethodMatcher's ALL/negation set algebra, glob/regex engines (external).",
+  "contract-based deductive verification (govc VC generation over go/ssa, z3/cvc5)", "DESIGN.md §6 C03"),
 }
 NOT_APPLICABLE = {
  "C20": "no contract within reach expresses or decides it: the behaviour lives in reflection-driven third-party code (koanf, mapstructure, yaml, jsonschema) and recursive any-typed merges; see DESIGN.md §6 C20",
